@@ -237,11 +237,22 @@ def m_fsm(pre, ev, post):
         else:
             target_is_me = True
         post_sas = {bytes(s.my_spi): s for s in ep.controller.ike_sas}
+        # an IKE_SA that has been replaced (rekey) and ends in this step hands the local events that were queued on it to
+        # its successor, which may start the first of them at once (repair F22)
+        handed = set()
+        for o in pre.endpoints[name].controller.ike_sas:
+            if o.pending_events and o.new_ike_sa is not None:
+                q = post_sas.get(bytes(o.my_spi))
+                if q is None or q.state == S_.DELETED:
+                    handed.add(bytes(o.new_ike_sa.my_spi))
         for ps in pre.endpoints[name].controller.ike_sas:
             spi = bytes(ps.my_spi)
             qs = post_sas.get(spi)
             post_state = qs.state if qs is not None else S_.DELETED
             if ps.state == post_state:
+                continue
+            if target_is_me and spi in handed and ps.state == EST and _step('trigger', EST, post_state):
+                COVER['M-fsm:queue-handed-to-successor:%s' % post_state.name] += 1
                 continue
             if not target_is_me:
                 yield ('M-fsm', 'bystander:%s->%s' % (ps.state.name, post_state.name),
